@@ -115,8 +115,7 @@ theorem insertNew_full (s : State) (c : Var) (pos : Nat) (srcs : List (Nat × Op
       refine ⟨by simp only [allocBlock, setNode_get], ?_⟩
       simp only [allocBlock, setNode_get]
       intro he
-      have := (newSlots_mem c.k st1.next ⟨st1.next, 0⟩).mpr ⟨rfl, Nat.zero_lt_succ 3⟩
-      rw [he] at this; cases this
+      exact newSlots_ne_nil _ _ _ (st1.per.pos c.k) he
     · rw [if_neg hc]
       exact ⟨rfl, fun he => by rw [he] at hc; exact hc rfl⟩
   have heq : insertNew s c pos srcs =
@@ -580,13 +579,14 @@ theorem keysOk_run {st : State} (h : SInv st) (hk : KeysOk st) (ops : List Op) :
   | nil => exact hk
   | cons op rest ih => exact ih (step_ok h op).1 (keysOk_step h hk op)
 
-theorem keysOk_empty : KeysOk empty := by
+theorem keysOk_empty (p : Per) : KeysOk (empty p) := by
   intro c
   simp [keysOf, empty]
 
-theorem keysOk_init : KeysOk init := keysOk_execAll sinv_empty keysOk_empty createAll init_defined
+theorem keysOk_init (p : Per) : KeysOk (init p) :=
+  keysOk_execAll (sinv_empty p) (keysOk_empty p) createAll (init_defined p)
 
 /-- in every reachable state the keys of the keyed containers are sorted resp. pairwise distinct -/
-theorem keysOk_reach (ops : List Op) : KeysOk (run init ops) := keysOk_run sinv_init.1 keysOk_init ops
+theorem keysOk_reach (p : Per) (ops : List Op) : KeysOk (run (init p) ops) := keysOk_run (sinv_init p).1 (keysOk_init p) ops
 
 end Nstd.Life.Copy
